@@ -1,4 +1,5 @@
 import SioVerif.Model.Upgrade
+import SioVerif.Gen.Consts
 /-
   C07 — A transport upgrade loses, duplicates and breaks nothing.
 
@@ -213,6 +214,10 @@ theorem upgrade_packet_first (s : St) (s' : St) (es : List Unit) (hs : step s .c
     · assumption
     · cases hs
   · cases hs
+
+/-- the model's `send` steps put a packet on whichever transport is current at that step; the code does so because Send
+    chooses the transport and enqueues under transportMu (read from the source; see C19 `send_chooses_and_enqueues_under_lock`) -/
+theorem send_is_one_step : Gen.eioSendUnderTransportLock = true := by decide
 
 /-! non-vacuity: a burst queued exactly when the transports are swapped -/
 example : (sys.run {} [.sSend 1, .sSend 2, .pollTake, .sSend 3, .cSend 7, .postDeliver, .swap, .cSend 8, .upgrade, .sSend 4,
